@@ -307,7 +307,9 @@ def names_domain(case) -> bool:
 # ----------------------------------------------------------------------------- PDF construction
 
 class Builder:
-    def __init__(self, npages: int):
+    def __init__(self, npages: int, pgroups: Optional[List[int]] = None):
+        """Page i is object 3 + i.  `pgroups` shapes the page tree: k > 0 = an intermediate /Pages node holding the
+        next k pages, 0 = the next page directly under the root (document order = page index in every shape)."""
         self.objs: Dict[int, Any] = {}
         self.npages = npages
         self.catalog: Dict[str, Any] = {"Type": "Catalog", "Pages": Ref(2)}
@@ -316,6 +318,22 @@ class Builder:
         for i in range(npages):
             self.objs[3 + i] = {"Type": "Page", "Parent": Ref(2), "MediaBox": [0, 0, 10, 10]}
         self.next = 3 + npages
+        if pgroups and sum(max(1, g) for g in pgroups) == npages:
+            kids: List[Any] = []
+            i = 0
+            for g in pgroups:
+                if g <= 0:
+                    kids.append(Ref(3 + i))
+                    i += 1
+                else:
+                    nid = self.alloc()
+                    self.objs[nid] = {"Type": "Pages", "Parent": Ref(2), "Count": g,
+                                      "Kids": [Ref(3 + j) for j in range(i, i + g)]}
+                    for j in range(i, i + g):
+                        self.objs[3 + j]["Parent"] = Ref(nid)
+                    kids.append(Ref(nid))
+                    i += g
+            self.objs[2]["Kids"] = kids
 
     def alloc(self) -> int:
         n = self.next
@@ -473,36 +491,91 @@ def open_doc(pdf: bytes):
 
 
 def labels_pdf(case) -> bytes:
-    b = Builder(case["npages"])
+    b = Builder(case["npages"], case.get("pgroups"))
     if case.get("tree") is not None:
         b.catalog["PageLabels"] = emit_numtree(b, case["tree"])
     return b.pdf()
 
 
-def impl_labels(case, count: int) -> Tuple[List[str], List[str]]:
-    """(first `count` results of get_page_labels(), PDFPage.label of every page), canonical; an exception ends the
-    list with E:<type>."""
+def _take(make_iter, k: int) -> List[str]:
     from pdfminer.pdfdocument import PDFNoPageLabels
-    from pdfminer.pdfpage import PDFPage
-    pdf = labels_pdf(case)
-    doc = open_doc(pdf)
     out: List[str] = []
     try:
-        it = doc.get_page_labels()
-        for _ in range(count):
+        it = make_iter()
+        for _ in range(k):
             out.append(cps(next(it)))
     except PDFNoPageLabels:
         out.append("E:PDFNoPageLabels")
     except Exception as e:  # noqa: BLE001
         out.append("E:" + type(e).__name__)
-    doc2 = open_doc(pdf)
+    return out
+
+
+def _page_labels(doc) -> List[str]:
+    from pdfminer.pdfpage import PDFPage
     pl: List[str] = []
     try:
-        for p in PDFPage.create_pages(doc2):
+        for p in PDFPage.create_pages(doc):
             pl.append("none" if p.label is None else cps(p.label))
     except Exception as e:  # noqa: BLE001
         pl.append("E:" + type(e).__name__)
-    return out, pl
+    return pl
+
+
+def impl_labels(case, count: int) -> Tuple[List[str], List[str]]:
+    """(first `count` results of get_page_labels(), PDFPage.label of every page) observed on ONE PDFDocument,
+    canonical; an exception ends the list with E:<type>."""
+    doc = open_doc(labels_pdf(case))
+    out = _take(doc.get_page_labels, count)
+    return out, _page_labels(doc)
+
+
+def labels_history(case, count: int) -> Optional[Tuple[str, List[str], List[str]]]:
+    """State carried across calls: the labels are requested several times, in different ways, on ONE PDFDocument
+    (and once on a page selection).  Returns (what, expected, got) for the first observation that differs from the
+    first pass, None when all agree."""
+    from pdfminer.pdfpage import PDFPage
+    pdf = labels_pdf(case)
+    doc = open_doc(pdf)
+    npages = case["npages"]
+    first = _take(doc.get_page_labels, count)
+    if first == ["E:PDFNoPageLabels"]:
+        exp_pages = ["none"] * npages
+    else:
+        exp_pages = first[:npages]
+    p1 = _page_labels(doc)
+    if not (exp_pages and exp_pages[-1].startswith("E:")) and p1 != exp_pages:
+        return ("PDFPage.create_pages after get_page_labels on the same document", exp_pages, p1)
+    p2 = _page_labels(doc)
+    if p2 != p1:
+        return ("second PDFPage.create_pages pass over the same document", p1, p2)
+    again = _take(doc.get_page_labels, count)
+    if again != first:
+        return ("second get_page_labels() on the same document", first, again)
+    if first and not first[-1].startswith("E:") and count >= 2:
+        # two generators alive at the same time, consumed alternately
+        k = case.get("split", count // 2) % count
+        try:
+            it1 = doc.get_page_labels()
+            x1 = [cps(next(it1)) for _ in range(k)]
+            it2 = doc.get_page_labels()
+            y = [cps(next(it2)) for _ in range(count)]
+            x2 = [cps(next(it1)) for _ in range(count - k)]
+        except Exception as e:  # noqa: BLE001
+            return ("two get_page_labels() generators consumed alternately", first, ["E:" + type(e).__name__])
+        if y != first or x1 + x2 != first:
+            return ("two get_page_labels() generators consumed alternately", first, x1 + x2 if y == first else y)
+    subset = sorted(set(i for i in case.get("subset", []) if 0 <= i < npages))
+    if subset and not (exp_pages and exp_pages[-1].startswith("E:")):
+        try:
+            got = ["none" if p.label is None else cps(p.label)
+                   for p in PDFPage.get_pages(BytesIO(pdf), pagenos=set(subset))]
+        except Exception as e:  # noqa: BLE001
+            got = ["E:" + type(e).__name__]
+        exp = [exp_pages[i] for i in subset]
+        if got != exp:
+            return ("PDFPage.get_pages(pagenos=%r): labels of the selected pages" % subset, exp, got)
+    return None
 
 
 def impl_labels_strict(case, count: int) -> Tuple[List[str], List[str]]:
@@ -620,29 +693,72 @@ def sx_outline_graph(b: Builder, it: "Intern") -> Tuple[int, str]:
     return b.outline_ids[0], "(G " + " ".join(parts) + ")"
 
 
-def impl_outline(case) -> List[str]:
-    from pdfminer.pdfdocument import PDFNoOutlines
+def _fmt_outline_item(t) -> str:
     from pdfminer.pdftypes import resolve1
-    b = outline_builder(case)
-    doc = open_doc(b.pdf())
+    (level, title, dest, a, se) = t
+    a1 = resolve1(a)
+    return "%d:%s:%s:%s:%s" % (
+        level, cps(title),
+        "-" if dest is None else canon_obj(resolve1(dest)),
+        "-" if a is None else canon_obj(a1.get("D") if isinstance(a1, dict) else a1),
+        "-" if se is None else "se")
+
+
+def _outline_list(doc, cap: int) -> List[str]:
+    from pdfminer.pdfdocument import PDFNoOutlines
     out: List[str] = []
-    cap = len(b.outline_ids) + 2      # every dictionary yields at most one item
     try:
-        for (level, title, dest, a, se) in itertools.islice(doc.get_outlines(), cap + 1):
+        for t in itertools.islice(doc.get_outlines(), cap + 1):
             if len(out) >= cap:
                 out.append("E:unbounded")
                 break
-            a1 = resolve1(a)
-            out.append("%d:%s:%s:%s:%s" % (
-                level, cps(title),
-                "-" if dest is None else canon_obj(resolve1(dest)),
-                "-" if a is None else canon_obj(a1.get("D") if isinstance(a1, dict) else a1),
-                "-" if se is None else "se"))
+            out.append(_fmt_outline_item(t))
     except PDFNoOutlines:
         out.append("E:PDFNoOutlines")
     except Exception as e:  # noqa: BLE001
         out.append("E:" + type(e).__name__)
     return out
+
+
+def impl_outline(case) -> List[str]:
+    b = outline_builder(case)
+    doc = open_doc(b.pdf())
+    return _outline_list(doc, len(b.outline_ids) + 2)      # every dictionary yields at most one item
+
+
+def outline_history(case) -> Optional[Tuple[str, List[str], List[str]]]:
+    """get_outlines() several times on ONE PDFDocument: again after a full pass, after an abandoned partial pass,
+    and two generators consumed alternately.  (what, expected, got) for the first difference, else None."""
+    b = outline_builder(case)
+    doc = open_doc(b.pdf())
+    cap = len(b.outline_ids) + 2
+    first = _outline_list(doc, cap)
+    second = _outline_list(doc, cap)
+    if second != first:
+        return ("second get_outlines() on the same document", first, second)
+    if first and first[-1].startswith("E:"):
+        return None
+    try:
+        g0 = doc.get_outlines()
+        for _ in range(len(first) // 2):
+            next(g0)                       # abandoned half-way
+        g1, g2 = doc.get_outlines(), doc.get_outlines()
+        a: List[str] = []
+        c: List[str] = []
+        for _ in range(cap):
+            x = next(g1, None)
+            y = next(g2, None)
+            if x is None and y is None:
+                break
+            if x is not None:
+                a.append(_fmt_outline_item(x))
+            if y is not None:
+                c.append(_fmt_outline_item(y))
+    except Exception as e:  # noqa: BLE001
+        return ("two get_outlines() generators consumed alternately", first, ["E:" + type(e).__name__])
+    if a != first or c != first:
+        return ("two get_outlines() generators consumed alternately", first, a if a != first else c)
+    return None
 
 
 def names_pdf(case) -> bytes:
@@ -678,6 +794,27 @@ def impl_dests(case) -> List[str]:
         except Exception as e:  # noqa: BLE001
             out.append("E:" + type(e).__name__)
     return out
+
+
+def dests_history(case) -> Optional[Tuple[str, List[str], List[str]]]:
+    """The same queries again, in reverse order, on the SAME PDFDocument: a lookup must not depend on earlier ones."""
+    from pdfminer.pdfdocument import PDFDestinationNotFound
+    from pdfminer.pdftypes import resolve1
+    doc = open_doc(names_pdf(case))
+
+    def ask(q) -> str:
+        try:
+            v = doc.get_dest(query_key(q))
+            return "V:" + canon_obj(resolve1(v)) if v is not None else "None"
+        except PDFDestinationNotFound:
+            return "E:notfound"
+        except Exception as e:  # noqa: BLE001
+            return "E:" + type(e).__name__
+    first = [ask(q) for q in case["queries"]]
+    back = [ask(q) for q in reversed(case["queries"])][::-1]
+    if back != first:
+        return ("get_dest asked again on the same document (reverse order)", first, back)
+    return None
 
 
 def spec_dests(case) -> Optional[List[str]]:
@@ -915,6 +1052,18 @@ def gen_labels_case(rng, wild: bool) -> Dict[str, Any]:
         npages = min(max(npages, min(starts[-1] + 2, 90)), 90)
     entries = [[s, gen_label_dict(rng, wild)] for s in starts]
     case: Dict[str, Any] = {"kind": "labels", "npages": npages}
+    if rng.random() < 0.5:
+        # page tree with intermediate /Pages nodes (document order stays the page index)
+        groups: List[int] = []
+        left = npages
+        while left > 0:
+            g = rng.choice([0, 0, 1, 2, 3, 5])
+            g = min(g, left)
+            groups.append(g)
+            left -= max(1, g)
+        case["pgroups"] = groups
+    case["subset"] = sorted(rng.sample(range(npages), rng.randint(1, min(npages, 4))))
+    case["split"] = rng.randint(0, npages + 2)
     if wild:
         r = rng.random()
         if r < 0.25 and len(entries) > 1:
@@ -1332,6 +1481,18 @@ def eval_labels(ctx: C.Ctx, batch: Batch, case, wild: bool, shrink: bool = True)
     if case.get("tree") is not None:
         batch.add("spec.labels %d %s" % (count, sx_numtree(case["tree"])), "spec.labels", case,
                   "outside-domain" if exp is None else "|".join(exp), "spec")
+    hist = labels_history(case, count)
+    if hist is not None:
+        def hfails(c):
+            try:
+                return labels_history(c, c["npages"] + c.get("extra", 3)) is not None
+            except Exception:  # noqa: BLE001
+                return False
+        small = shrink_labels(case, hfails) if case.get("tree") is not None else case
+        h2 = labels_history(small, small["npages"] + small.get("extra", 3)) or hist
+        ctx.fail(C.Failure("page labels depend on what was requested before on the same document / on the page "
+                           "selection: " + h2[0].split(":")[0].split("(pagenos")[0].strip(),
+                           small, h2[1], h2[2], {"component": "labels-history", "observation": h2[0]}))
     if case.get("tree") is not None:
         eval_labels_strict(ctx, batch, case, wild, exp, count)
     if exp is not None and not wild:
@@ -1411,6 +1572,11 @@ def eval_outline(ctx: C.Ctx, batch: Batch, case, wild: bool) -> None:
         return "|".join(out) if out else "-"
     damaged = bool(case.get("damage"))
     small_in = case if n < 200 else {"kind": "outline", "items": n}
+    if n < 400:
+        hist = outline_history(case)
+        if hist is not None:
+            ctx.fail(C.Failure("get_outlines() depends on earlier calls on the same document: " + hist[0], small_in,
+                               hist[1][:40], hist[2][:40], {"component": "outline-history", "observation": hist[0]}))
     if not case.get("no_outlines"):
         # the object-graph model (visited set): also for rewired links (cycles, shared, dangling)
         root_id, gsx = sx_outline_graph(outline_builder(case), it)
@@ -1469,6 +1635,10 @@ def eval_names(ctx: C.Ctx, batch: Batch, case, wild: bool) -> None:
     if tree:
         ctx.branch("nametree:depth>=3" if tree_depth(tree) >= 3 else "nametree:depth<3")
         ctx.branch("nametree:root-limits" if tree.get("limits") else "nametree:root-nolimits")
+    hist = dests_history(case)
+    if hist is not None:
+        ctx.fail(C.Failure("get_dest depends on earlier lookups on the same document", case, hist[1], hist[2],
+                           {"component": "names-history", "observation": hist[0]}))
     it = Intern()
     npages = case.get("npages", 3)
     # register expected values first so that ids are stable
